@@ -295,11 +295,20 @@ func (d *lmtpDelivery) BodyNonAtomic(ctx context.Context, sc module.StatusCollec
 		for _, rcpt := range d.rcpts {
 			sc.SetStatus(rcpt, modErr)
 		}
+		return
 	}
 	defer r.Close()
 
 	rcptIndx := 0
-	err = d.conn.LMTPData(ctx, header, r, func(rcpt string, err *smtp.SMTPError) {
+	err = d.conn.LMTPData(ctx, header, r, func(_ string, err *smtp.SMTPError) {
+		// Statuses are reported in the order recipients were accepted. Use
+		// the address as it was passed to AddRcpt, the one reported by the
+		// client is the (possibly converted) form used on the wire.
+		if rcptIndx >= len(d.rcpts) {
+			return
+		}
+		rcpt := d.rcpts[rcptIndx]
+		rcptIndx++
 		if err == nil {
 			sc.SetStatus(rcpt, nil)
 		} else {
@@ -311,7 +320,6 @@ func (d *lmtpDelivery) BodyNonAtomic(ctx context.Context, sc module.StatusCollec
 				Err:          err,
 			})
 		}
-		rcptIndx++
 	})
 	if err != nil {
 		modErr := d.u.moduleError(err)
